@@ -321,6 +321,28 @@ fn pairs(out: &mut Out, rng: &mut Rng, n: usize, only: Option<&str>) {
                 emit_cmp(out, *v, &a, &b);
             }
         }
+        // two HEADER bytes changed by related deltas (+-1, +-16, 0x80, 0xff): fields packed with the wrong shift
+        // make such pairs look alike
+        if !crate::fam_codec::STRICT {
+            let hdr = v.ck_len() + 2;
+            let deltas = [1u8, 0xff, 16, 0xf0, 0x80, 0x0f];
+            for i in 0..hdr {
+                for j in (i + 1)..hdr {
+                    for &d1 in deltas.iter() {
+                        for &d2 in deltas.iter() {
+                            if n < 1000 && (d1 == 0x0f || d2 == 0x0f) {
+                                continue;
+                            }
+                            let a = image(*v, rng);
+                            let mut b = a.clone();
+                            b[i] = b[i].wrapping_add(d1);
+                            b[j] = b[j].wrapping_add(d2);
+                            emit_cmp(out, *v, &a, &b);
+                        }
+                    }
+                }
+            }
+        }
         for i in 0..n {
             let a = image(*v, rng);
             let b = match i % 6 {
